@@ -170,7 +170,7 @@ def run(tier):
             common.write_ndjson(req, [{"db": path, "mode": "fresh" if mode == "open" else "keep", "ops": ops}])
             rc, txt, _ = common.run([h, "ops", req, out], timeout=3000)
             if rc != 0:
-                raise Infra("harness ops failed: " + txt[-2000:])
+                raise common.harness_failure(txt)
             res = {x["id"]: x for x in common.read_ndjson(out)}
             base = summarize([res[i] for i in first])
             if any(e for e, _, _, _ in base):
@@ -199,7 +199,7 @@ def run(tier):
         common.write_ndjson(req, [{"db": path, "mode": "fresh", "ops": ops}])
         rc, txt, _ = common.run([h, "ops", req, out], timeout=300)
         if rc != 0:
-            raise Infra("harness ops failed: " + txt[-2000:])
+            raise common.harness_failure(txt)
         res = common.read_ndjson(out)
         rs = summarize(res)
         oc = "rejected" if all(e and n == 0 for e, _, n, _ in rs) else "other"
@@ -216,7 +216,7 @@ def run(tier):
     common.write_ndjson(inp, parse_reqs)
     rc, txt, _ = common.run([h, "calls", inp, outp], timeout=600)
     if rc != 0:
-        raise Infra("harness calls failed: " + txt[-2000:])
+        raise common.harness_failure(txt, "harness calls")
     pres = common.read_ndjson(outp)
     for ev, pr in zip(events, pres):
         x = pr.get("res") or {}
